@@ -361,8 +361,12 @@ where
             let minus = deriv_quotient - sqrt;
             let a = if plus.abs() > minus.abs() {
                 order / plus
-            } else {
+            } else if minus.abs() > N::RealField::zero() {
                 order / minus
+            } else {
+                // Both denominators vanish: the first and second derivatives are zero here
+                // (e.g. x^n - c at the starting guess 0). Step off the stationary point.
+                -Complex::<N::RealField>::one()
             };
             guess -= a;
             k += 1;
